@@ -170,6 +170,12 @@ impl Report {
         for (k, v) in &self.extra {
             cov.set(k, v.clone());
         }
+        // what the all-levels sink logger consumed (0 when no logger was installed: the cost measurements)
+        let recs = crate::util::LOGGED_RECORDS.load(std::sync::atomic::Ordering::Relaxed);
+        if recs > 0 {
+            cov.set("library_log_records_formatted", recs as i64);
+            cov.set("library_log_bytes_formatted", crate::util::LOGGED_BYTES.load(std::sync::atomic::Ordering::Relaxed) as i64);
+        }
         let mut j = J::obj();
         j.set("property_id", self.property.as_str());
         j.set("tier", self.tier.as_str());
